@@ -59,9 +59,55 @@ def parse_summary(line):
     return d
 
 
-def run_traces(path, timeout=1200):
+def private_modelrun(ctx):
+    """Other checks (C01, C02, C03 in parallel) rebuild coq/RaftAbs/extract/modelrun too: run a private copy."""
+    import shutil
+    import time
+    dst = os.path.join(ctx.run_dir, "raftabs", "modelrun-%d" % os.getpid())
+    os.makedirs(os.path.dirname(dst), exist_ok=True)
+    last = ""
+    for attempt in range(4):
+        try:
+            with vlib.CoqLock():
+                shutil.copy2(vlib.modelrun_path(GROUP), dst)
+            rc, out, _ = sh("%s < /dev/null" % dst, timeout=60)
+            if rc == 0 and "SUMMARY" in out:
+                return dst
+            last = out[-300:]
+        except OSError as ex:
+            last = str(ex)
+        time.sleep(1 + attempt)
+        build(ctx)
+    raise RuntimeError("cannot obtain a runnable RaftAbs modelrun: " + last)
+
+
+def private_harness(ctx):
+    """Same for the Go binary (.build/bin/raftabs is rebuilt by every check that uses the acceptor)."""
+    import shutil
+    import time
+    dst = os.path.join(ctx.run_dir, "raftabs", "raftabs-%d" % os.getpid())
+    last = ""
+    for attempt in range(4):
+        try:
+            shutil.copy2(os.path.join(vlib.BIN, "raftabs"), dst)
+            rc, out, _ = sh("%s -n 0 -out %s" % (dst, dst + ".probe"), timeout=60)
+            if rc == 0 and "raftabs traces=0" in out:
+                try:
+                    os.remove(dst + ".probe")
+                except OSError:
+                    pass
+                return dst
+            last = out[-300:]
+        except OSError as ex:
+            last = str(ex)
+        time.sleep(1 + attempt)
+        vlib.go_build("raftabs")
+    raise RuntimeError("cannot obtain a runnable raftabs harness binary: " + last)
+
+
+def run_traces(path, timeout=1200, exe=None):
     """Run the extracted acceptor on a flattened trace file; returns (summary dict, rejected, skipped)."""
-    rc, out, dt = sh("%s < %s" % (vlib.modelrun_path(GROUP), path), timeout=timeout)
+    rc, out, dt = sh("%s < %s" % (exe or vlib.modelrun_path(GROUP), path), timeout=timeout)
     summary, rejected, skipped, ok = {}, [], [], 0
     for line in out.split("\n"):
         f = line.split("\t")
@@ -74,7 +120,8 @@ def run_traces(path, timeout=1200):
         elif len(f) >= 5 and f[1] == "SKIP":
             skipped.append(dict(trace=f[0], seq=int(f[2]), event=f[3], why=f[4]))
     if rc != 0 or not summary:
-        rejected.append(dict(trace="-", seq=-1, event="driver", why="acceptor driver failed: " + out[-500:]))
+        # not a verdict about the implementation: the harness itself failed
+        raise RuntimeError("RaftAbs acceptor driver failed (rc=%s): %s" % (rc, out[-800:]))
     summary["accepted_traces"] = ok
     summary["wall_s"] = round(dt, 2)
     return summary, rejected, skipped
@@ -86,25 +133,27 @@ def run_acceptor(ctx, tier=None, storage="mem", profile=""):
     build(ctx)
     d = os.path.join(ctx.run_dir, "raftabs")
     os.makedirs(d, exist_ok=True)
+    exe = private_modelrun(ctx)
+    gobin = private_harness(ctx)
     n_traces = n_steps = 0
     rejected, skipped = [], []
     tot = {}
     gen_s = 0.0
-    jobs = [("-seed %d -n %d -events %d" % (ctx.seed * 1000 + b, sz["n"], sz["events"]), "traces-%d.txt" % b)
+    pid = os.getpid()
+    jobs = [("-seed %d -n %d -events %d" % (ctx.seed * 1000 + b, sz["n"], sz["events"]), "traces-%d-%d.txt" % (pid, b))
             for b in range(sz["blocks"])]
     if sz.get("cp"):
-        jobs.append(("-crashpoints -seed %d -n %d -events %d" % (ctx.seed * 1000 + 999, sz["cp"], sz["cp_events"]), "crashpoints.txt"))
+        jobs.append(("-crashpoints -seed %d -n %d -events %d" % (ctx.seed * 1000 + 999, sz["cp"], sz["cp_events"]), "crashpoints-%d.txt" % pid))
     for args, fn in jobs:
         seed = args
         path = os.path.join(d, fn)
         rc, out, dt = sh("%s %s -storage %s %s -out %s" % (
-            os.path.join(vlib.BIN, "raftabs"), args, storage,
+            gobin, args, storage,
             ("-profile " + profile) if profile else "", path), timeout=1800)
         gen_s += dt
         if rc != 0:
-            rejected.append(dict(trace=str(seed), seq=-1, event="generate", why="raftabs failed: " + out[-500:]))
-            continue
-        summary, rej, skp = run_traces(path)
+            raise RuntimeError("raftabs trace generation failed (%s): %s" % (args, out[-800:]))
+        summary, rej, skp = run_traces(path, exe=exe)
         n_traces += summary.get("traces", 0)
         n_steps += summary.get("abstract_steps", 0)
         rejected += rej
@@ -118,6 +167,11 @@ def run_acceptor(ctx, tier=None, storage="mem", profile=""):
                     h[a] = h.get(a, 0) + c
         if not rej:
             os.remove(path)
+    for f in (exe, gobin):
+        try:
+            os.remove(f)
+        except OSError:
+            pass
     tot["generate_s"] = round(gen_s, 2)
     tot["skipped_events"] = tot.get("unchecked_events", 0)
     tot["skipped_list"] = skipped[:20]
